@@ -36,8 +36,12 @@ PROPS["C10"] = dict(
             dict(pkg="./storage", entry="VerifC10Route", bounds="maxp=4", solver="z3-new", reach=["routed"]),
             dict(pkg="./storage", entry="VerifC10Group", bounds="maxp=4", solver="z3-new", workers=4, reach=["grouped"]),
             dict(pkg="./storage", entry="VerifC10Big", bounds="p=300", solver="z3-new", unwind=1100, conc_limit=400, reach=["big-routed"]),
+            # 'every restart computes the same owner': the owner is the partition at position UuidMod(id, P) of the list, so the
+            # list order must survive a catalogue snapshot/restore (partition ids in non-sorted creation order)
+            dict(pkg="./storage", entry="VerifC14", bounds="ops=2,datasets=2", reach=["end"], must_assert=["snapshot+replay-same-partition-ids"]),
         ],
         "thorough": [
+            dict(pkg="./storage", entry="VerifC14", bounds="ops=3,datasets=2", reach=["end"], must_assert=["snapshot+replay-same-partition-ids"]),
             dict(pkg="./utils", entry="VerifC10Mod", bounds="maxn=1024", solver="z3-new", workers=1, timeout_ms=120000, reach=["mod-done"]),
             dict(pkg="./utils", entry="VerifC10Mod", bounds="maxn=1024", solver="cvc5-int", workers=1, timeout_ms=120000, reach=["mod-done"]),
             dict(pkg="./storage", entry="VerifC10Route", bounds="maxp=7", solver="z3-new", timeout_ms=60000, reach=["routed"]),
@@ -259,6 +263,9 @@ PROPS["C18"] = dict(
     runs={
         "quick": [dict(pkg="./storage", entry="VerifC18", bounds="preempt=1,race=1", reach=["drivers-returned", "end"]),
                   dict(pkg="./storage", entry="VerifC18", bounds="preempt=1,replicaless=1,race=1", reach=["drivers-returned", "end"]),
+                  # scripted drivers over the REAL catalogue: DatasetManager.process (creates/deletes holding the catalogue lock), the
+                  # real Allocator loop with local partitions and its proposals (to a catalogue group that never commits), real Conn
+                  dict(pkg="./storage", entry="VerifC18Catalogue", bounds="preempt=0", unwind=400, no_native=True, reach=["drivers-returned", "end"]),
                   # restart with existing datasets and joins during creates/deletes on real Servers over the REAL etcd/raft
                   dict(pkg=".", entry="VerifC14Raft", bounds="members=2", unwind=4000, no_native=True, reach=["settled", "restarted", "end"])],
         "thorough": [dict(pkg="./storage", entry="VerifC18", bounds="preempt=3,race=1", reach=["drivers-returned", "end"]),
@@ -336,6 +343,8 @@ PROPS["C14"] = dict(
             dict(pkg="./storage", entry="VerifC14", bounds="ops=3,datasets=1,replicas=3", reach=["end"]),
             # real Servers over the REAL etcd/raft (zero group and partition groups), virtual clock
             dict(pkg=".", entry="VerifC14Raft", bounds="members=2", unwind=4000, no_native=True, reach=["settled", "restarted", "end"]),
+            # a third member is down while a dataset is deleted and the leader compacts: it is caught up by a snapshot
+            dict(pkg=".", entry="VerifC14Raft", bounds="members=3,lagdelete=1,norestart=1", unwind=4000, no_native=True, reach=["settled", "end"]),
         ],
         "thorough": [
             dict(pkg="./storage", entry="VerifC14", bounds="ops=4,datasets=2", reach=["end"]),
@@ -370,6 +379,8 @@ PROPS["C03"] = dict(
             dict(pkg="./storage", entry="VerifC03Crash", bounds="ops=2", no_native=True, reach=["restarted", "end"]),
             # three replicas of a real partition over the REAL etcd/raft: a minority crashes at a durable-write boundary and restarts
             dict(pkg="./storage", entry="VerifC03Cluster", bounds="ops=2,ids=1,crashes=1,maxflush=6,compact=1", unwind=4000, no_native=True, reach=["written", "restarted", "end"]),
+            # scripted history insert a, insert b, remove a: a replica that misses the removal is caught up by a non-empty snapshot
+            dict(pkg="./storage", entry="VerifC03Cluster", bounds="ops=3,ids=2,script=1,crashes=1,maxflush=8,compact=1", unwind=4000, no_native=True, reach=["written", "restarted", "end"]),
         ],
         "thorough": [
             dict(pkg="./storage/raft", entry="VerifC03", bounds="readys=1,maxmessages=1,msgtypes=2", reach=["readys-handled", "end"]),
@@ -438,6 +449,8 @@ PROPS["C20"] = dict(
             dict(pkg=".", entry="VerifC20Raft", bounds="members=2,leadercrash=1", unwind=4000, no_native=True, reach=["joined", "restarted", "end"]),
             dict(pkg=".", entry="VerifC20Raft", bounds="members=3,leadercrash=1,compact=1", unwind=4000, no_native=True, reach=["joined", "restarted", "end"]),
             dict(pkg=".", entry="VerifC20Raft", bounds="members=3,faults=1,removal=0", unwind=4000, no_native=True, reach=["joined", "restarted", "end"]),
+            # a member is down during a removal; the removed member re-joins through it before it caught up
+            dict(pkg=".", entry="VerifC20Raft", bounds="members=3,rejoin=1", unwind=4000, no_native=True, reach=["joined", "end"]),
         ],
         "thorough": [
             dict(pkg=".", entry="VerifC20Cluster", bounds="members=3", no_native=True, reach=["joined", "restarted", "end"]),
